@@ -4,8 +4,10 @@
 
    A frame holds user-labelled and predicted instances (`li_user`).
      rebind uo fr      `if user_instances_only: if lf.user_instances: lf.instances = lf.user_instances`
-                       (_get_lf_idx_list, _get_instance_idx_list, process_lf all do it; the
-                       frame object keeps the filtered list afterwards)
+                       (_get_lf_idx_list, _get_instance_idx_list, process_lf all do it; the CALLER'S
+                       frame object keeps the filtered list afterwards: finding F110, `labels_after`
+                       below; with proposed_fixes/C11_F110.diff the filtered list is a local and
+                       `rebind` is only what the dataset considers)
      considered uo fr  the keypoint arrays of the frame's instances after that filter
      max_instances     providers.get_max_instances: max len(lf.instances) over the frames
                        BEFORE any filtering (BaseDataset.__init__ computes it first)
@@ -72,6 +74,32 @@ Definition user_nonempty (li : linst) : bool := li_user li && nonempty (li_pts l
 Definition count_user_nonempty (frames : list lframe) : nat :=
   list_sum (map (fun fr => length (filter user_nonempty fr)) frames).
 
+(* ---- what the CALLER'S Labels object holds after a dataset was built over it (finding F110) ----
+   fixedL = false  pinned tree and current tree (/repo HEAD, F110 not repaired): `lf.instances =
+                   lf.user_instances` is a store into the caller's LabeledFrame; `_get_lf_idx_list` /
+                   `_get_instance_idx_list` run over every frame in `__init__`, `process_lf` again on
+                   every frame it is given: the labels hold `rebind uo fr` for every frame afterwards
+                   (`frame_after`: one frame handed to process_lf / a chunk function)
+   fixedL = true   proposed_fixes/C11_F110.diff: the filtered list is a local (`get_lf_instances`)
+   The harness decides which one the code under check is by replaying the corpus witness.
+   `selector_F110 uo fr` = exactly the frames the store changes: user_instances_only and the frame
+   holds both a user and a predicted instance (`rebind_changes_iff`). *)
+Definition frame_after (fixedL uo : bool) (fr : lframe) : lframe := if fixedL then fr else rebind uo fr.
+Definition labels_after (fixedL uo : bool) (frames : list lframe) : list lframe :=
+  map (frame_after fixedL uo) frames.
+
+Definition mixed (fr : lframe) : bool :=
+  existsb li_user fr && existsb (fun li => negb (li_user li)) fr.
+Definition selector_F110 (uo : bool) (fr : lframe) : bool := uo && mixed fr.
+
+(* the domain of process_lf / the chunk functions / generate_centroids (review finding 2): the code
+   raises (np.stack([]) in process_lf, IndexError for the anchor slice) outside it; the totalised
+   definitions above return rows of zero nodes / the bbox midpoint there, so the theorems about them
+   carry these as hypotheses *)
+Definition lf_domain (uo : bool) (fr : lframe) : bool := existsb nonempty (considered uo fr).
+Definition anchor_domain (anchor : option nat) (nodes : nat) : bool :=
+  match anchor with Some a => Nat.ltb a nodes | None => true end.
+
 (* ---- evaluation entry point for the correspondence harness ----
    (fixed, anchor, uo, scale, frames as lists of (is_user, keypoints)) ->
    (lf_idx_list, instance_idx_list, max_instances,
@@ -94,3 +122,21 @@ Definition run_ds (c : bool * option nat * bool * Q * list (list (bool * instanc
   ((lfl, il, max_instances frames),
    (collect (frame_sample uo s frames) (length lfl),
     collect (centered_sample fixed anchor uo s frames) (length il))).
+
+(* (fixedL, run_ds case) -> (user flags of the instances each frame of the caller's labels holds after a
+   dataset was built over them, run_ds of a SECOND dataset built over those same label objects) *)
+Definition to_raw (frames : list lframe) : list (list (bool * instance)) :=
+  map (map (fun li => (li_user li, li_pts li))) frames.
+
+Definition run_ds2 (c : bool * (bool * option nat * bool * Q * list (list (bool * instance))))
+  : list (list bool) *
+    ((list nat * list (nat * nat) * nat) * (list (list instance * nat) * list (kp * instance))) :=
+  let '(fixedL, (fixed, anchor, uo, s, raw)) := c in
+  let after := labels_after fixedL uo (of_raw raw) in
+  (map (map li_user) after, run_ds (fixed, anchor, uo, s, to_raw after)).
+
+(* (fixedL, uo, frame) -> user flags of the instances the caller's frame holds after process_lf / a
+   chunk function was called on it *)
+Definition run_frame_after (c : bool * bool * list (bool * instance)) : list bool :=
+  let '(fixedL, uo, raw) := c in
+  map li_user (frame_after fixedL uo (map (fun p => mklinst (fst p) (snd p)) raw)).
